@@ -30,7 +30,7 @@ import (
 func init() {
 	Register("C17", &CheckInfo{
 		Fn: checkC17, Level: "model_checking",
-		Rule: "every extended commit of 3 validators with per-validator (flag in {commit, absent, nil}) x (payload in {empty, {}, null fields, own initial signatures, another validator's (replayed) initial signatures, invalid signatures, valset signature for the right / a wrong timestamp / 66 bytes, attestation for the current / an unknown / a duplicated snapshot, truncated JSON, random bytes}) - 16^3 commits with real ed25519 extension signatures - is run in 2 worlds (validator set unchanged / reordered after the snapshot) through the real PrepareProposalHandler, ProcessProposalHandler (baseapp's recover reproduced), VerifyVoteExtensionHandler and the real PreBlocker closure; oracles: Process(Prepare(commit)) accepts whenever baseapp.ValidateVoteExtensions accepts the commit; the injected data equals an independent reading of the extensions; every single-element mutation (change/delete/insert/swap in each of the 8 injected lists) of an accepted proposal is rejected; the store difference across PreBlocker is exactly what the extensions imply (EVM address only for unregistered operators and equal to the sender's own key; signatures/attestations only in the sender's slot); no panic escapes PreBlocker, recovered panics are counted",
+		Rule: "every extended commit of 3 validators with per-validator (flag in {commit, absent, nil, nil carrying one of 5 unauthenticated extensions}) x (payload in {empty, {}, null fields, own initial signatures, another validator's (replayed) initial signatures, invalid signatures, valset signature for the right / a wrong timestamp / 66 bytes, attestation for the current / an unknown / a duplicated snapshot, truncated JSON, random bytes}) - 21^3 commits with real ed25519 extension signatures - is run in 2 worlds (validator set unchanged / reordered after the snapshot) through the real PrepareProposalHandler, ProcessProposalHandler (baseapp's recover reproduced), VerifyVoteExtensionHandler and the real PreBlocker closure; oracles: Process(Prepare(commit)) accepts whenever baseapp.ValidateVoteExtensions accepts the commit; the injected data equals an independent reading of the extensions; every single-element mutation (change/delete/insert/swap in each of the 8 injected lists) of an accepted proposal is rejected; the store difference across PreBlocker is exactly what the extensions imply (EVM address only for unregistered operators and equal to the sender's own key; signatures/attestations only in the sender's slot); no panic escapes PreBlocker, recovered panics are counted",
 		Assume:      []string{"block_height and extended_commit_info in the injected tx are not bridge data and are not mutated", "ExtendVoteHandler needs a node keyring and is exercised only for its no-key path", "the relayer-side meaning of a signature (ecrecover) is C15/C16's subject; here signatures are opaque bytes"},
 		QuickBudget: 7 * time.Minute, ThoroughBudget: 30 * time.Minute,
 	})
@@ -269,7 +269,9 @@ func c17Run(rc *RunCtx, cw *c17World) {
 		return mk(ext)
 	}
 	const nPayload = 14
-	nOpt := nPayload + 2 // + absent + nil
+	// a vote that is not a commit vote may still carry extension bytes; nobody checked their signature
+	nilPayloads := []int{3, 4, 6, 9, 13}
+	nOpt := nPayload + 2 + len(nilPayloads) // + absent + nil + nil carrying an (unauthenticated) extension
 	ph, vh := f0.App.VerifProposalHandler(), f0.App.VerifVoteExtHandler()
 	pre := f0.App.VerifPreBlocker()
 	fail := func(oracle, detail string, desc []string) {
@@ -321,6 +323,11 @@ func c17Run(rc *RunCtx, cw *c17World) {
 			case o == nPayload+1:
 				vote.BlockIdFlag = cmtproto.BlockIDFlagNil
 				desc = append(desc, v.v.Name+":nil")
+			case o > nPayload+1:
+				vote.BlockIdFlag = cmtproto.BlockIDFlagNil
+				vote.VoteExtension = payload(i, nilPayloads[o-nPayload-2])
+				vote.ExtensionSignature = bytes.Repeat([]byte{0x42}, 64)
+				desc = append(desc, fmt.Sprintf("%s:nil/p%d", v.v.Name, nilPayloads[o-nPayload-2]))
 			default:
 				vote.BlockIdFlag = cmtproto.BlockIDFlagCommit
 				vote.VoteExtension = payload(i, o)
